@@ -63,7 +63,7 @@ def job(args):
             if VALIDATE:
                 ctx.apply_anchor_table()
             if ctx.findings or ctx.errors:
-                res[p] = {'findings': sorted({f.rule for f in ctx.findings}), 'errors': len(ctx.errors)}
+                res[p] = {'findings': sorted({f.rule for f in ctx.findings}), 'clauses': sorted({(f.rule, getattr(f, 'clause', '')) for f in ctx.findings}), 'errors': len(ctx.errors)}
         return (fn_file, qual, lineno, name, res)
     finally:
         shutil.rmtree(d, ignore_errors=True)
@@ -96,12 +96,12 @@ if __name__ == '__main__':
         if os.path.exists(ap):
             old = json.load(open(ap))
         for k, v in old.items():
-            table[k] = [tuple(x) for x in v]
+            table[k] = [tuple(x) for x in v if len(x) == 3]
         for fn_file, q, lineno, name, res in results:
             for p, r in res.items():
-                for rule in r['findings']:
+                for rule, clause in r.get('clauses', []):
                     table.setdefault(rule, [])
-                    if (q, name) not in table[rule]:
-                        table[rule].append((q, name))
+                    if (q, name, clause) not in table[rule]:
+                        table[rule].append((q, name, clause))
         json.dump({k: sorted(v) for k, v in sorted(table.items())}, open(ap, 'w'), indent=1)
         print('anchors.json:', sum(len(v) for v in table.values()), 'anchor names for', len(table), 'rules')
